@@ -378,7 +378,7 @@ func fbFrontEnd() (*fbServer, string, *grpc.ClientConn) {
 		pb.RegisterBESSControlServer(g, fbSrv)
 		go g.Serve(lis)
 		fbSrvAddr = "unix://" + sock
-		c, err := grpc.NewClient(fbSrvAddr, grpc.WithTransportCredentials(insecure.NewCredentials()))
+		c, err := grpc.NewClient(fbSrvAddr, grpc.WithTransportCredentials(insecure.NewCredentials()), grpc.WithIdleTimeout(0))
 		if err != nil {
 			panic(err)
 		}
@@ -404,7 +404,7 @@ func fbFreshReadyConn() *grpc.ClientConn {
 	}
 	// several attempts: under heavy load a single dial has been seen to sit in back-off for tens of seconds
 	for attempt := 0; ; attempt++ {
-		nc, err := grpc.NewClient(addr, grpc.WithTransportCredentials(insecure.NewCredentials()))
+		nc, err := grpc.NewClient(addr, grpc.WithTransportCredentials(insecure.NewCredentials()), grpc.WithIdleTimeout(0))
 		if err != nil {
 			panic("VERIF-INFRA: " + err.Error())
 		}
